@@ -3,3 +3,4 @@ pub mod fmt;
 pub mod inst;
 pub mod rfc2822;
 pub mod rfc3339;
+pub mod strftime;
